@@ -18,7 +18,7 @@ NOT_APPLICABLE = {
 CHECKS = {
     "C05": (
         "exploration",
-        "Seeded search over recording-loop histories (k, N, dt sequences, thermalisation, probes, screening, output destination) executed by the real Runner/DataHandler/RunningState/Solution code; every frame, label, time and per-step record of every run is compared with an executable recorder model fed from the update seam. Sampling, not enumeration: a clean batch is evidence, not proof.",
+        "The first 2496 runs of every batch enumerate the bounded grid of the quantifier exhaustively (N 0..12 x k 1..N+2 x thermalisation on/off x 0/2/3 probes x screening on/off x fixed/scripted dt; completeness is reported in the evidence as enumerated_grid), the remaining runs are a seeded search over recording-loop histories (k, N up to 40, dt sequences incl. float-accumulation edges, thermalisation, probes, screening, output destination, real adaptive runs with injected refusals) executed by the real Runner/DataHandler/RunningState/Solution code; every frame, label, time and per-step record of every run is compared with an executable recorder model fed from the update seam. Sampling, not enumeration: a clean batch is evidence, not proof.",
         "Trusted: the recorder model (sim/recorder.py, written from the property text), h5py read-back, the update-seam capture. Engine B replaces the physics update by a stub whose values encode the update count; Engine A runs use the real update.",
         "deterministic simulation: seeded history generation + recorder reference model + replayable minimised scenarios",
         "DESIGN.md 4/C05",
